@@ -16,6 +16,7 @@ import (
 	"io"
 	"os"
 	"sort"
+	"strings"
 	"sync"
 
 	"github.com/notaryproject/notation-go/registry"
@@ -155,6 +156,17 @@ func main() {
 					panic(err)
 				}
 				trace = append(trace, fmt.Sprintf("foreign artifact type referrer of subject#%d", si))
+				if rng.Bool() {
+					// what a generic OCI 1.1 tool attaches when told "--artifact-type application/vnd.cncf.notary.signature": the
+					// artifactType FIELD names notation, the config is the empty one. A Notary signature manifest is recognised
+					// by its config media type (that is what PushSignature writes); this is a referrer of another kind.
+					bd2, _ := oras.PushBytes(ctx, store, lib.MediaJWS, []byte(fmt.Sprint("attached-by-a-generic-tool", iter, op)))
+					if _, err := oras.PackManifest(ctx, store, oras.PackManifestVersion1_1, registry.ArtifactTypeNotation, oras.PackManifestOptions{Subject: &sub, Layers: []ocispec.Descriptor{bd2}}); err != nil {
+						panic(err)
+					}
+					trace = append(trace, fmt.Sprintf("image manifest with artifactType FIELD = notation and the empty config for subject#%d", si))
+					r.Event("artifact-type-field-referrers")
+				}
 			case kind == 6: // notation-typed image manifest whose LAYER is the subject; its subject is another artifact or absent
 				m := ocispec.Manifest{MediaType: ocispec.MediaTypeImageManifest, Config: notationCfg, Layers: []ocispec.Descriptor{sub}, Annotations: map[string]string{"weird": fmt.Sprint(op)}}
 				m.SchemaVersion = 2
@@ -367,6 +379,64 @@ func main() {
 			r.Sample("sequence", trace)
 		}
 	}, r.PanicViolation("registry client"))
+
+	// a referrer whose MANIFEST really exceeds the 4 MiB cap, foreign or notation-typed, next to a good signature: whatever
+	// the listing answers (an error, or the good signature alone), the oversized manifest's content is never read
+	for _, typed := range []string{"foreign", "notation"} {
+		for _, where := range []string{"memory", "disk"} {
+			var inner oras.GraphTarget = memory.New()
+			if where == "disk" {
+				dir := lib.TempDir("c19big")
+				r.OnExit(func() { os.RemoveAll(dir) })
+				st, err := oci.New(dir)
+				if err != nil {
+					panic(err)
+				}
+				inner = st
+			}
+			store := &counting{GraphTarget: inner, fetched: map[digest.Digest]int{}}
+			repo := registry.NewRepository(store)
+			sub, _ := oras.PushBytes(ctx, store, ocispec.MediaTypeImageManifest, []byte(`{"schemaVersion":2,"mediaType":"application/vnd.oci.image.manifest.v1+json","config":{"mediaType":"application/vnd.oci.empty.v1+json","digest":"sha256:44136fa355b3678a1146ad16f7e8649e94fb4fc21fe77e8310c060f61caaff8a","size":2},"layers":[],"annotations":{"for":"`+typed+where+`"}}`))
+			_, goodMan, err := repo.PushSignature(ctx, lib.MediaJWS, []byte("good envelope "+typed+where), sub, nil)
+			if err != nil {
+				panic(err)
+			}
+			cfgType := "application/vnd.example.sbom.config"
+			if typed == "notation" {
+				cfgType = registry.ArtifactTypeNotation
+			}
+			cfg := ocispec.Descriptor{MediaType: cfgType, Digest: ocispec.DescriptorEmptyJSON.Digest, Size: 2}
+			store.Push(ctx, cfg, bytes.NewReader([]byte("{}")))
+			layer, _ := oras.PushBytes(ctx, store, lib.MediaJWS, []byte("layer of the oversized manifest "+typed+where))
+			m := ocispec.Manifest{MediaType: ocispec.MediaTypeImageManifest, Config: cfg, Layers: []ocispec.Descriptor{layer}, Subject: &sub, Annotations: map[string]string{"pad": strings.Repeat("p", 4*1024*1024+10)}}
+			m.SchemaVersion = 2
+			var bigMan ocispec.Descriptor
+			func() {
+				defer func() { recover() }()
+				bigMan = pushJSON(ctx, store, ocispec.MediaTypeImageManifest, m)
+			}()
+			if bigMan.Digest == "" {
+				r.Event("oversized-manifest-not-storable")
+				continue
+			}
+			before := store.count(bigMan.Digest)
+			var got []ocispec.Descriptor
+			lerr := repo.ListSignatures(ctx, sub, func(ds []ocispec.Descriptor) error { got = append(got, ds...); return nil })
+			r.Eval("oversized-manifest|" + typed + "|" + where)
+			r.Event("oversized-manifest-listings")
+			wit := map[string]any{"oversized_manifest": bigMan, "type": typed, "store": where, "listing_error": fmt.Sprint(lerr), "listed": got}
+			if c := store.count(bigMan.Digest) - before; c > 0 {
+				r.Violation(map[string]string{"kind": "hostile-content-read", "hostile": "oversized-" + typed + "-referrer-manifest"}, fmt.Sprintf("a %s referrer manifest of %d bytes (cap 4 MiB) was fetched %d times by ListSignatures (err=%v)", typed, bigMan.Size, c, lerr), wit)
+			}
+			for _, d := range got {
+				if d.Digest == bigMan.Digest {
+					r.Violation(map[string]string{"kind": "hostile-not-refused", "hostile": "oversized-" + typed + "-referrer-manifest"}, "an oversized referrer manifest was listed as a signature", wit)
+				} else if d.Digest != goodMan.Digest {
+					r.Violation(map[string]string{"kind": "listing"}, "the listing holds a manifest that was never pushed for the subject", wit)
+				}
+			}
+		}
+	}
 
 	// one real envelope just above the 32 MiB cap
 	func() {
